@@ -368,3 +368,88 @@ gcsim("C13", "VM weak-reference processing rounds run until the closure is compl
       design_ref="2/C13",
       shards=lambda tier, seed: std_gc_shards(tier, seed, 13, ["ephemerons"], plans_filter=COLLECTING + ["Compressor"]),
       floors={"quick": {"process_weak_refs_calls": 300, "reachability_probes": 50000, "values_retained": 100, "max_rounds_in_one_gc": 3, "ephemeron_chains": 50}})
+
+unit("C29", "Discontiguous chunk allocation keeps the region map consistent",
+     rule="600 histories (thorough 15000) on a private Map32 under the compressed-pointer style layout, following the CommonPageResource protocol: create_freelist for 1-5 spaces, contiguous neighbour spaces, "
+          "finalize_static_space_map, allocate_contiguous_chunks, free_contiguous_chunks at head/middle/tail/only positions, free_all_chunks, final whole-range allocation; after EVERY operation: descriptors of all chunks in the heap range +-2, "
+          "region chains per space, region sizes, available-chunk count; distinct = (op kind, position, spaces, region-count class)",
+     technique="reference-model monitor: {chunk -> owner} + per-space ordered region list vs the real Map32 through its VMMap interface",
+     level_text="Every operation of long allocate/free histories is followed by a full comparison of the chunk descriptor map, the per-space region chains and the available-chunk count with the model; a CPU-time watchdog turns a non-returning call into a violation.",
+     note="A NoGC MMTK instance is built only to initialise SFT_MAP (free_contiguous_chunks clears SFT entries). Placement policy is not checked.",
+     design_ref="2/C29",
+     floors={"quick": {"evaluations": 60000, "op_free_head": 2000, "op_free_middle": 2000, "op_free_tail": 2000, "op_free_only": 2000, "op_free_all": 2000}})
+
+unit("C30", "Mmap chunk states only move Unmapped to Quarantined to Mapped",
+     rule="150 histories (thorough 3000) on a private ChunkStateMmapper over a 98 GiB PROT_NONE reservation modelling 8704 chunks around two 32 GiB slab boundaries of the two-level storage: legal quarantine / ensure_mapped / mark_as_mapped "
+          "calls over aligned and unaligned ranges (in one slab, spanning one or two boundaries, whole slab); after each op the recorded state of ALL chunks + 4 outside, monotonicity, is_mapped_address, and read-write probes of mapped chunks; "
+          "distinct = (op, range placement class, alignment, prior-state mix)",
+     technique="reference-model monitor: per-chunk state model vs the real mmapper (state via verif hook, mapped-ness via pipe read/write probes)",
+     level_text="Every operation is followed by a comparison of every modelled chunk's recorded state with the model, plus OS-level readability/writability probes.",
+     note="Only documented-legal call sequences (no re-quarantine of quarantined chunks; mark_as_mapped only on memory the harness mapped).",
+     design_ref="2/C30",
+     floors={"quick": {"evaluations": 5000, "range_spans_one_boundary": 700, "range_spans_two_boundaries": 40, "op_quarantine": 400, "op_ensure_mapped": 400, "op_mark_as_mapped": 400, "rw_probed_chunks": 5000}})
+
+unit("C37", "Compressor forwarding addresses pack live objects in order",
+     rule="~150k object layouts (thorough ~3M) in three 1 MiB regions whose data is NOT mapped (any read of object memory would fault): dense, sparse, block-straddling, boundary (object starting at a block start / ending at a block end / "
+          "first word = last word of a block / two-word object across a boundary), big, single object, empty, nothing-live, full-to-cursor layouts; mark bitmap zeroed as CompressorSpace::prepare does, offset vector stale/garbage/zero; "
+          "every live object: forward == region start + sum of sizes of live objects before it; scan_marked_objects == live set in order; distinct = (generator, boundary class, block-open state, size class)",
+     technique="reference-model monitor: prefix-sum model vs the real ForwardingMetadata (mark bits, offset vector, Transducer) through the verif hook",
+     level_text="The closed-form forwarding address is compared for every live object of every generated layout, including all block-boundary alignments of object starts and ends.",
+     note="End-to-end Compressor GCs are additionally observed in gcsim variant B (C01).",
+     design_ref="2/C37",
+     floors={"quick": {"evaluations": 3000000, "objects_straddling_block": 500000, "objects_starting_at_block_start": 200000, "objects_ending_at_block_end": 200000,
+                       "objects_last_word_at_block_start": 200000, "objects_first_word_at_block_end": 200000, "layouts_cursor_at_region_end": 400}})
+
+
+def c38_shards(tier, seed):
+    rnd = _rng(seed, 38)
+    shards = [dict(pkg="units", variant="A", args=["C38"])]
+    plans = ["SemiSpace", "GenCopy", "GenImmix", "Immix", "StickyImmix", "MarkSweep", "MarkCompact", "ConcurrentImmix", "PageProtect"]
+    reps = 1 if tier == "quick" else 5
+    for plan in plans:
+        for _ in range(reps):
+            lo = rnd.choice([2, 3, 4])
+            hi = rnd.choice([16, 24, 64, 128])
+            shards.append(gc_shard("A", plan, rnd, 30000 if tier == "quick" else 80000, stress=0,
+                                   extra=["--dyn-heap", "%d,%d" % (lo, hi), "--live-kb", rnd.choice([6000, 20000, 60000])]))
+    for plan in ["SemiSpace", "Immix"]:
+        shards.append(gc_shard("A", plan, rnd, 12000))
+    return shards
+
+
+gcsim("C38", "Dynamic heap size stays within its bounds",
+      rule="(i) live: generated programs under DynamicHeapSize:min,max (min 2-4 MiB so that the heap must grow, max 16-128 MiB, live-set budgets below and above max) on every collecting plan; memory_manager::total_bytes() sampled at every pause end "
+           "and every 128 mutator operations must lie in [min, max] (page rounded); with FixedHeapSize it must never change. (ii) unit: the real MemBalancerTrigger::compute_new_heap_limit stepped with 300k histories (thorough 30M) of GC statistics "
+           "(times in {0} u [1e-9, 1e6] s, pages <= 2^35, zeros, min == max, pending pages) plus a corner grid: the result must lie in [min, max] after every step; distinct = (plan / formula-vs-fallback branch, result at min / interior / at max, heap size in MiB)",
+      technique="assertion monitor on the reported heap size at quiescent points of live runs + reference-bound monitor on the real MemBalancer driven with synthetic statistics through a verif hook",
+      level_text="Heap-size bounds are asserted wherever the binding can observe them in live runs, and the clamp is exercised directly over the statistics domain.",
+      note="A live run whose heap never leaves the minimum observes little; the floors require interior and boundary samples.",
+      design_ref="2/C38", shards=c38_shards,
+      floors={"quick": {"dynamic_samples": 2000, "samples_interior": 500, "fixed_samples": 100, "branch_fallback": 300000, "result_interior": 150000, "result_at_max": 100000, "result_at_min": 50000}})
+
+
+def c12_shards(tier, seed):
+    rnd = _rng(seed, 12)
+    shards = []
+    reps = 3 if tier == "quick" else 16
+    for variant in ("A", "B"):
+        for i in range(reps):
+            extra = []
+            if i % 4 == 3:
+                extra = ["--opt", "concurrent_immix_disable_concurrent_marking=true"]
+            shards.append(gc_shard(variant, "ConcurrentImmix", rnd, 60000 if tier == "quick" else 150000,
+                                   flags=["weak", "failpoints"] + (["chaos"] if i % 2 else []),
+                                   mutators=rnd.choice([1, 2, 4]), heap=rnd.choice([16, 24, 32]), stress=0,
+                                   scenario="nogcops", extra=extra + ["--live-kb", rnd.choice([3000, 6000])]))
+    return shards + finding_shards("C12", seed)
+
+
+gcsim("C12", "Concurrent Immix preserves the snapshot-at-the-beginning",
+      rule="ConcurrentImmix (variants A, B) programs without user GCs on small heaps so that concurrent marking cycles run while 1-4 mutators keep allocating, overwriting and deleting references through the SATB pre-write barrier "
+           "(and loading weak referents through load_weak_reference); at the InitialMark pause the shadow-reachable id set is snapshotted, every object allocated until the FinalMark pause is added; after FinalMark every id of that set "
+           "that is no longer reachable must still be intact by address (header, payload, slots, and is_mmtk_object); failpoints delay workers after polling packets and before parking; case = one snapshot object; non-trivial = unreachable at FinalMark",
+      technique="snapshot monitor over InitialMark..FinalMark cycles of live runs with real mutator/marker concurrency (shadow-heap oracle, by-address integrity of snapshot objects)",
+      level_text="The classic lost-object scenario is produced constantly by the generated programs (the only path to a snapshot object is deleted while marking runs); whatever interleavings the OS scheduler and the failpoints produce are observed.",
+      note="Objects the SATB barrier cannot iterate (scan_object_and_trace_edges objects) and NonMoving objects (known finding) are not used under ConcurrentImmix.",
+      design_ref="2/C12", shards=c12_shards,
+      floors={"quick": {"initial_mark_pauses": 20, "final_mark_pauses": 20, "snapshot_objects": 5000, "snapshot_objects_unreachable_at_final_mark_verified": 500}})
